@@ -538,6 +538,20 @@ func (ex *Executor) evalIndex(e *SExpr, env *SpecEnv) (Val, error) {
 	if err != nil {
 		return Val{}, err
 	}
+	if base.Tab != nil {
+		if !idx.T.IsNum() || !idx.T.Num.IsInt64() {
+			return Val{}, fmt.Errorf("table index %s is not a row number", idx.T)
+		}
+		if idx.T.Num.Int64() < 0 || int(idx.T.Num.Int64()) >= len(base.Tab.Rows) {
+			// out of range: only reachable under a false guard; an unconstrained row
+			row := make([]Val, len(base.Tab.Fields))
+			for k := range row {
+				row[k] = Val{T: Fresh("oob", SInt)}
+			}
+			return Val{Fs: row, Ty: base.Tab.Elem}, nil
+		}
+		return Val{Fs: base.Tab.Rows[idx.T.Num.Int64()], Ty: base.Tab.Elem}, nil
+	}
 	if base.Ty == nil {
 		return Val{}, fmt.Errorf("index on untyped %s", e)
 	}
@@ -575,6 +589,9 @@ func (ex *Executor) evalCallSpec(e *SExpr, env *SpecEnv) (Val, error) {
 		a, err := argv(0)
 		if err != nil {
 			return Val{}, err
+		}
+		if a.Tab != nil {
+			return specInt(Num(int64(len(a.Tab.Rows)))), nil
 		}
 		if a.Ty != nil && isString(a.Ty) {
 			return specInt(strLen(a.T)), nil
@@ -693,6 +710,13 @@ func (ex *Executor) evalCallSpec(e *SExpr, env *SpecEnv) (Val, error) {
 			return Val{}, err
 		}
 		return specBool(Select(Select(env.heapArr("M.dom", SAAIB), m.T), k.T)), nil
+	case "content":
+		a, err := argv(0)
+		if err != nil {
+			return Val{}, err
+		}
+		earr := env.heapArr(elemName(SInt), SAAII)
+		return specInt(App("slicecontent", SInt, Select(earr, ex.sarr(a.T)), ex.soff(a.T), ex.slen(a.T))), nil
 	case "cancelled":
 		return specBool(Bool(env.st.cancelled)), nil
 	case "strlen":
@@ -956,3 +980,77 @@ func (ex *Executor) runGhost(st *State, fr *Frame, g *GhostStmt) {
 }
 
 var _ = strconv.Itoa
+
+// VerifyLemma: a lemma justified by "smt" is proved from explicit instances of other lemmas.
+func (ex *Executor) VerifyLemma(lem *Lemma) {
+	ex.unitKey = lem.Pkg + ".lemma." + lem.Name
+	ex.unitProps = lem.Props
+	ex.unitSpec = nil
+	st := &State{heap: map[string]*Term{}, alloc: Num(0)}
+	env := &SpecEnv{ex: ex, st: st, vars: map[string]Val{}, pkgRel: lem.Pkg}
+	for _, p := range lem.Params {
+		s := SInt
+		if p.Type == "bool" {
+			s = SBool
+		}
+		env.vars[p.Name] = Val{T: Sym("lp."+lem.Name+"."+p.Name, s)}
+	}
+	for _, h := range lem.Requires {
+		v, err := ex.evalSpec(h, env)
+		if err != nil {
+			ex.errf("lemma %s: %v", lem.Name, err)
+			return
+		}
+		st.assume(v.T)
+	}
+	ex.Obls = append(ex.Obls, &Obligation{Name: ex.oblName(nil, "cover", "requires"), Kind: "cover", Func: ex.unitKey, Props: lem.Props,
+		Facts: append([]*Term(nil), st.facts...), Cover: true, Text: "lemma hypotheses satisfiable"})
+	for _, g := range lem.Proof {
+		if g.Kind != "use" {
+			ex.errf("lemma %s: only `use` is allowed in a proof", lem.Name)
+			return
+		}
+		other := ex.S.Lemmas[g.Call.Name]
+		if other == nil || other == lem {
+			ex.errf("lemma %s: bad use %s", lem.Name, g.Text)
+			return
+		}
+		c := env.child()
+		c.pkgRel = other.Pkg
+		c.vars = map[string]Val{}
+		for i, p := range other.Params {
+			a, err := ex.evalSpec(g.Call.Args[i], env)
+			if err != nil {
+				ex.errf("lemma %s: %s: %v", lem.Name, g.Text, err)
+				return
+			}
+			c.vars[p.Name] = Val{T: a.T}
+		}
+		var hyps []*Term
+		for _, h := range other.Requires {
+			v, err := ex.evalSpec(h, c)
+			if err != nil {
+				ex.errf("lemma %s: %v", lem.Name, err)
+				return
+			}
+			hyps = append(hyps, v.T)
+		}
+		for _, cl := range other.Ensures {
+			v, err := ex.evalSpec(cl, c)
+			if err != nil {
+				ex.errf("lemma %s: %v", lem.Name, err)
+				return
+			}
+			st.assume(Implies(And(hyps...), v.T))
+		}
+		ex.Assumed["lemma "+other.Name+" ("+other.Just+")"] = true
+	}
+	for i, cl := range lem.Ensures {
+		v, err := ex.evalSpec(cl, env)
+		if err != nil {
+			ex.errf("lemma %s: %v", lem.Name, err)
+			return
+		}
+		ex.addObl(st, "lemma", fmt.Sprintf("%s#%d", lem.Name, i), v.T, cl.String(), nil)
+	}
+}
